@@ -8,6 +8,7 @@ import Nuts.Model.Tx
 import Nuts.Spec.DB
 import NutsProofs.Lemmas.BPTreeRefine
 import NutsProofs.Lemmas.Paging
+import NutsProofs.Facts
 namespace NutsProofs.C03
 open Nuts Nuts.Model Nuts.Model.DB
 
@@ -299,5 +300,12 @@ theorem C03_page_refines_spec_nodead (opt0 : Opts) (ops : List Op) (hok : OpsOk 
     rw [this]
     show (if pageSel off lim mt ((liveBucket (absBucket m) now).filter _) = [] then _ else _) = _
     rw [← hlive]
+
+/-- **regenerated tie of the scans.** The loop headers, the prefix test, the offset counter (`coff < offsetNum`,
+`coff++`) and the limit test (`limitNum > 0 && numFound == limitNum`) of `PrefixScan` / `PrefixSearchScan`, and
+the bounds of `findRange`, are on this run the lines the model was written from (part of
+`NutsProofs.Facts.expectedBptStmts`). -/
+theorem C03_scan_statements_regenerated : NutsGen.F.bptStmts = NutsProofs.Facts.expectedBptStmts :=
+  NutsProofs.Facts.bpt_statements_ok
 
 end NutsProofs.C03
